@@ -152,6 +152,12 @@ def check(run):
         desc['Nthread'] = Nthread
         run.progress(desc)
         run.ev()
+        if k % 3 == 1 and case['desc']['H']:
+            # an unrelated request on the very same tables just before (other thresholds, other flags, other thread count):
+            # whatever it leaves behind must not reach the request that is checked
+            decoy = {t: dict(p, logM_cut=p['logM_cut'] + 0.37, logM1=p['logM1'] - 0.21, ic=1.0) for t, p in case['tracers'].items()}
+            run_real(GH, case, 1 + (k % 16), tracers=decoy, rsd=not case['rsd'])
+            run.count('decoy_requests_before_the_checked_one')
         core.poison_prime()
         got = run_real(GH, case, Nthread)
         exp, info = hodref.reference_catalog(ref, case['halo'], case['part'], case['tracers'], case['params'], case['enable_ranks'], case['rsd'])
